@@ -149,11 +149,13 @@ func FuzzVF_C18_keys(f *testing.F) {
 	})
 }
 
-// c18FuzzResp: the small room's /state answer with up to two foreign entries spliced in.
+// c18FuzzResp: the small room's /state answer with up to two foreign entries spliced in. The
+// real-signature verifier (mode 3) is left to the rapid sub-check and to FuzzVF_C18_sign: under
+// the fuzzer's instrumentation ed25519 makes an execution about twenty times slower.
 func c18FuzzResp(ver, flags, where uint8, extra1, extra2, join []byte) c18RespCase {
 	version := c18FuzzVersion(ver)
 	room := c18GetRoom(version, c18JoinRules[int(flags>>4)%len(c18JoinRules)], c18Bobs[int(where>>4)%len(c18Bobs)])
-	c := c18RespCase{Version: version, State: c18Trees(room.State), Auth: c18Trees(room.Chain), Verifier: []int{0, 3, 1, 2}[int(flags)&3], Missing: int(flags>>2) & 3 % 3}
+	c := c18RespCase{Version: version, State: c18Trees(room.State), Auth: c18Trees(room.Chain), Verifier: []int{0, 0, 1, 2}[int(flags)&3], Missing: int(flags>>2) & 3 % 3}
 	if version == "org.matrix.msc4014" && where&8 != 0 {
 		c.Querier = 1
 	}
